@@ -177,6 +177,24 @@ def m_decl_unused_first(spec, rng):
     return map_parts(spec, f)
 
 
+def m_root_gt_value(spec, rng):
+    """a namespace name with a literal '>' (legal in an attribute value) declared on the root BEFORE the others"""
+    return map_parts(spec, lambda n, t, pm: L.serialise(t, prefixes_for(t, pm), root_first=u' xmlns:gtx="urn:x:a>b"'))
+
+
+def m_decl_spaced_equals(spec, rng):
+    """white space around the '=' of every declaration and attribute of the root tag (xmlns:style = "...")"""
+    return map_parts(spec, lambda n, t, pm: L.serialise(t, prefixes_for(t, pm), eq=rng.choice([u' = ', u' =', u'= ', u'\t=\n'])))
+
+
+def m_comment_before_root(spec, rng):
+    """a comment in front of the document element that mentions markup (<x y>), and a processing instruction"""
+    def f(n, t, pm):
+        b = L.serialise(t, prefixes_for(t, pm), prolog=False)
+        return (u'<?xml version="1.0" encoding="UTF-8"?>\n<!-- generated; see <office:body> and <a b="c"> -->\n<?pi x?>\n').encode('utf-8') + b
+    return map_parts(spec, f)
+
+
 def m_manifest_reorder(spec, rng):
     m = list(spec['manifest']); rng.shuffle(m)
     mem = list(spec['members']); rng.shuffle(mem)
@@ -483,6 +501,8 @@ MUTATORS = [
     ('reserialise', m_reserialise), ('prefix-alias', m_prefix_alias), ('prefix-rename', m_prefix_rename),
     ('prefix-swap', m_prefix_swap), ('default-ns', m_default_ns), ('decl-newline-all', m_decl_newline_all),
     ('decl-newline-tab', m_decl_newline_tab), ('decl-mixed-ws', m_decl_mixed_ws), ('decl-unused', m_decl_unused_first),
+    ('root-gt-value', m_root_gt_value), ('decl-spaced-equals', m_decl_spaced_equals), ('comment-before-root', m_comment_before_root),
+    ('root-gt-value', m_root_gt_value), ('decl-spaced-equals', m_decl_spaced_equals), ('comment-before-root', m_comment_before_root),
     ('manifest-reorder', m_manifest_reorder), ('manifest-reverse', m_manifest_reverse), ('extra-members', m_extra_members),
     ('foreign-attrs', m_foreign_attrs), ('section-attrs', m_section_attrs), ('content-only-fonts', m_content_only_fonts),
     ('fonts-in-content', m_fonts_moved_to_content), ('name-with-space', m_name_with_space),
@@ -622,8 +642,12 @@ W2 = (u"<?xml version='1.0' encoding='UTF-8'?>\n<o:document-content\nxmlns:o=\""
       u"say xmlns:x</u:p></o:body></o:document-content>")
 
 
+W4 = (u"<?xml version='1.0' encoding='UTF-8'?>\n<o:document-content xmlns:o=\"" + L.OFFICENS + u"\" xmlns:x=\"a>b\" xmlns:meta=\"urn:m\">"
+      u"<o:body><u:p xmlns:u=\"u\"/></o:body></o:document-content>")
+
+
 def witness(which):
     """a minimal package around the content.xml used in fix_finding_duplicate_xmlns (w1) / fix_finding_splice_in_text (w2)"""
-    content = {'w1': W1, 'w2': W2}[which].encode('utf-8')
+    content = {'w1': W1, 'w2': W2, 'w4': W4}[which].encode('utf-8')
     return {'mimetype': MT[u'text'], 'manifest': [(u'/', MT[u'text']), (u'content.xml', u'text/xml')],
             'members': [(u'content.xml', content)]}
